@@ -501,4 +501,8 @@ def main(tier, seed):
             rep.violation("standin.functional-interface", {"native_result": b, "script": REPLAY.format(seed=seed, only=None)})
         for b in bad_df[:1]:
             rep.violation("standin.dataframe-order", {"native_result": b, "script": "import sys\nfrom checks.c07 import native_dataframe\nn,b=native_dataframe(0)\nprint(b)\nsys.exit(1 if b else 0)\n"})
+    # level-2 evaluation for all path lengths and pixel counts (checks/l2sym.py): documented source / path / sensor / pixel order and shape of the output
+    from checks import l2sym
+
+    l2sym.report_fails(rep, l2sym.run(rep, tier, fams=["B'", 'B', 'A'], stride={'A': 4, 'B': 4}))
     return rep.finish()
